@@ -70,7 +70,7 @@ UNIT = Unit('lb', [
     Ghost("pub mod keyword { use super::*; use vstd::prelude::*; verus! {\n", name='kw_open'),
     Src('keyword.rs', fns=KEYWORD, props=['C08', 'C10'], keep_items=lambda kind, name: kind == 'fn'),
     Ghost("} }\n", name='kw_close'),
-    Src('lib.rs', fns=LIB, props=['C01', 'C08'],
+    Src('lib.rs', fns=LIB, props=['C01!', 'C08'],
         keep_items=lambda kind, name: kind == 'fn',
         regex_rules=[('rule23_crate_path', r'\bcrate::', 'crate::m::'), ('rule1_inner_doc_dropped', r'(?m)^//![^\n]*$', '')]),
     Ghost('\n} } // verus!\nfn main(){}\n', name='tail'),
